@@ -43,3 +43,14 @@ Proof. exact enc_once. Qed.
 Theorem C10_verdicts_agree : forall u P lg1 lg2 sol,
   pr_soft P = [] -> check_unsat_log u P lg1 = true -> check_sat_log_lenient u P lg2 sol = true -> False.
 Proof. exact verdicts_agree. Qed.
+
+(* ---- "never asks the provider twice" for EVERY schedule of the in-flight
+   protocol of the cache (Async/CacheProto.v: any interleaving of task polls and
+   provider answers, any cancellation point, any number of solves; the protocol
+   of get_or_cache_candidates and, since fix 432d8c2, of get_or_cache_dependencies):
+   every history the protocol can produce satisfies Once ---- *)
+From Resolvo Require Import Async.CacheProtoOnce.
+
+Theorem C10_protocol_never_asks_twice : forall es s,
+  prun drop_fixed p0 es = Some s -> drops_end_solve false es = true -> Once (hist s).
+Proof. exact proto_never_asks_twice. Qed.
